@@ -127,7 +127,8 @@ class HyperVFile:
         obj = {}
 
         for key, entry in self.root.items():
-            obj[key] = entry.as_dict()
+            # Like the children of any other node, an entry below the root is either a node or a value
+            obj[key] = entry.as_dict() if entry.type == KeyDataType.Node else entry.value
 
         return obj
 
